@@ -320,6 +320,10 @@ class MarshalSerializer(SerializerBase):
         return marshal.dumps((obj, method, vargs, kwargs))
 
     def dumps(self, data):
+        if type(data) in (list, tuple):
+            # convert the elements too (like dumpsCall does for the arguments): a batch reply is a list of results
+            # whose last element can be the (wrapped) exception of the failing call
+            data = type(data)(self.convert_obj_into_marshallable(value) for value in data)
         return marshal.dumps(self.convert_obj_into_marshallable(data))
 
     def loadsCall(self, data):
